@@ -13,6 +13,17 @@ CLAIMED = {
    note="Trusted: TLC/SANY/CommunityModules, the Go driver's bl op (calls each method, reads every bit back through GetBit). The refinement is "
         "exhaustive only for the scaled constants; the real constants are reached through replayed/recorded executions.",
    technique="TLA+ refinement model checking + behaviour replay + trace validation (TLC)", ref="5/C18"),
+ "C17": dict(
+   text="TLC checks the field laws (commutativity, associativity, distributivity, unique inverses, division undoes multiplication, log-based product = "
+        "polynomial product mod pp, alpha generates the group) exhaustively for GF(16)..GF(256) and on covering sets for GF(1024)/GF(4096) for all six fields "
+        "the library constructs, and model-checks the mutex-protected generator-polynomial cache (RSCache.tla: every request order and interleaving of 2-3 "
+        "clients, plus a negative model without the lock). Recorded rows of Multiply/Divide/Invers (all operand pairs for fields <= 256), random polynomial "
+        "add/multiply/divide calls and Reed-Solomon encoder histories (shuffled/increasing/decreasing check-symbol counts, repeated on warm and fresh encoders) "
+        "are validated by TraceGF.tla against relations stated independently of the library's algorithm (r*b=a, a*r=1, p=q*d+r with deg r<deg d, codeword "
+        "vanishes at alpha^(base+i)).",
+   note="Trusted: TLC/SANY/CommunityModules (Bitwise xor override), the Go driver's gf/rs ops. GF(4096) operand pairs are sampled (16.7M pairs exceed TLC "
+        "throughput); larger check-symbol counts (69..600) only in the thorough tier.",
+   technique="TLA+ model checking of field laws and cache protocol + trace validation of recorded calls (TLC)", ref="5/C17"),
 }
 
 NOT_YET = "check not built yet in this revision (planned per DESIGN.md section 10); not claimed"
